@@ -148,7 +148,27 @@ def check_io(case, ev):
     if exc is not None:
         return core.exc_finding(exc, case, "ctor/")
     line = "%s %s" % (G.v4_canon(x4), ipaddress.IPv6Address(x6))
-    out, exc = guarded(core.run_io, fa, line + "\n", bool(case.get("nonl")))
+    if case.get("cli") and cfg["salt"] and not cfg["salt"].startswith("-") and cfg["prefixes"] != [] and "\x00" not in cfg["salt"]:
+        # through the command line, which has one host-bit option for both families
+        import os
+        import shutil
+        import tempfile
+
+        from netconan.netconan import main
+
+        cfg = dict(cfg, B6=cfg["B4"])
+        d = tempfile.mkdtemp(prefix="vf-c04-")
+        try:
+            with open(os.path.join(d, "in.cfg"), "w") as fh:
+                fh.write(line + "\n")
+            argv = ["-a", "-i", os.path.join(d, "in.cfg"), "-o", os.path.join(d, "out.cfg"), "-s", cfg["salt"], "--preserve-host-bits", str(cfg["B4"])]
+            argv += (["--preserve-prefixes", ",".join(cfg["prefixes"])] if cfg["prefixes"] else []) + (["--preserve-addresses", ",".join(cfg["networks"])] if cfg.get("networks") else [])
+            _, exc = guarded(main, argv)
+            out = open(os.path.join(d, "out.cfg")).read() if exc is None and os.path.exists(os.path.join(d, "out.cfg")) else ""
+        finally:
+            shutil.rmtree(d, ignore_errors=True)
+    else:
+        out, exc = guarded(core.run_io, fa, line + "\n", bool(case.get("nonl")))
     if exc is not None:
         return core.exc_finding(exc, case, "io/")
     parts = out.split()
@@ -205,7 +225,7 @@ def _io_case(draw):
     x4 = draw(G.u32)
     while G.is_mask(x4):
         x4 = (x4 * 7 + 12345) & G.M32
-    return {"cfg": cfg, "x4": x4, "x6": draw(G.v6_int), "nonl": draw(st.integers(0, 3)) == 0}
+    return {"cfg": cfg, "x4": x4, "x6": draw(G.v6_int), "nonl": draw(st.integers(0, 3)) == 0, "cli": draw(st.integers(0, 2)) == 0}
 
 
 def check_io_long(case, ev):
